@@ -216,6 +216,12 @@ impl<CS: BbsCiphersuite> Signature<BBSplus<CS>> {
         update_index: usize,
         n: usize,
     ) -> Result<Self, Error> {
+        if n == usize::MAX || update_index >= n {
+            return Err(Error::UpdateSignatureError(
+                "update_index out of range".to_owned(),
+            ));
+        }
+
         let generators = Generators::create::<CS>(n + 1, Some(CS::API_ID));
 
         if generators.values.len() <= update_index + 1 {
